@@ -593,7 +593,7 @@ class DHTCommunity(Community):
             crawl.add_response(node, result)
 
     async def _find(self, crawl: Crawl, debug: bool = False) -> list[Node] | list[DHTValue] | \
-                                                                tuple[list[DHTValue], Crawl]:
+                                                                tuple[list[DHTValue] | list[Node], Crawl]:
         tasks: set[Future | Task] = set()
         while True:
             # Keep running tasks until work is done.
@@ -607,7 +607,7 @@ class DHTCommunity(Community):
             _, tasks = await wait(tasks, return_when=FIRST_COMPLETED)
 
         if crawl.force_nodes:
-            return crawl.nodes
+            return (crawl.nodes, crawl) if debug else crawl.nodes
 
         cache_candidate = crawl.cache_candidate
         values = crawl.values
@@ -672,7 +672,7 @@ class DHTCommunity(Community):
 
         if debug:
             results_debug = cast("tuple[tuple[list[DHTValue], Crawl], ...]", results)
-            return tuple(*[r[0] for r in results_debug]), cast("list[Crawl]", [r[1] for r in results_debug])
+            return merge_results(tuple(r[0] for r in results_debug)), cast("list[Crawl]", [r[1] for r in results_debug])
         # ``results`` is of type ``tuple[list[Node] | list[DHTValue], ...]``
         # However, mypy 1.13.0 is not yet powerful enough to infer the argument type from this.
         return merge_results(results)  # type: ignore[arg-type]
